@@ -60,21 +60,23 @@ class SubtreesTrie(Generic[T]):
         ]
 
     def values(self) -> List[Tuple[Path, T]]:
+        root_path_len = len(trie_key_to_path(self.root_path)) if self.root_path else 0
         return [
             (
                 value := self.trie[self.root_path + suffix],
-                (value[0][max(len(self.root_path) - 1, 0) :], value[1]),
+                (value[0][root_path_len:], value[1]),
             )[-1]
             for suffix in self.trie.suffixes(self.root_path)
         ]
 
     def items(self) -> List:
+        root_path_len = len(trie_key_to_path(self.root_path)) if self.root_path else 0
         return [
             (
                 trie_key_to_path(chr(1) + suffix),
                 (
                     value := self.trie[self.root_path + suffix],
-                    (value[0][max(len(self.root_path) - 1, 0) :], value[1]),
+                    (value[0][root_path_len:], value[1]),
                 )[-1],
             )
             for suffix in self.trie.suffixes(self.root_path)
@@ -85,13 +87,28 @@ class SubtreesTrie(Generic[T]):
         return SubtreesTrie(init_trie=self.trie, root_path=new_root_path)
 
 
+# The trie alphabet consists of the characters chr(0) ... chr(29). chr(0) is ignored
+# by the trie, chr(1) is reserved for the empty path. A child index i < 27 is encoded
+# as chr(i + 2); chr(29) is an escape character adding 27 to the index encoded by the
+# following character(s). This encoding is prefix-free and preserves the (pre-)order
+# of paths also for nodes with more than 27 children.
+_MAX_SINGLE_CHAR_IDX = 27
+_ESCAPE_CHAR = chr(29)
+
+
 def path_to_trie_key(path: Path) -> str:
     # 0-bytes are ignored by the trie ==> +1
     # To represent the empty part, reserve chr(1) ==> +2
     if not path:
         return chr(1)
 
-    return chr(1) + "".join([chr(i + 2) for i in path])
+    return chr(1) + "".join(
+        [
+            _ESCAPE_CHAR * (i // _MAX_SINGLE_CHAR_IDX)
+            + chr(i % _MAX_SINGLE_CHAR_IDX + 2)
+            for i in path
+        ]
+    )
 
 
 def trie_key_to_path(key: str) -> Path:
@@ -103,4 +120,17 @@ def trie_key_to_path(key: str) -> Path:
     if key == chr(1):
         return ()
 
-    return tuple([ord(c) - 2 for c in key if ord(c) != 1])
+    result = []
+    offset = 0
+    for c in key:
+        if ord(c) == 1:
+            continue
+
+        if c == _ESCAPE_CHAR:
+            offset += _MAX_SINGLE_CHAR_IDX
+            continue
+
+        result.append(offset + ord(c) - 2)
+        offset = 0
+
+    return tuple(result)
